@@ -7,6 +7,7 @@ import (
 	"fmt"
 	"math/big"
 	"strings"
+	"sync"
 
 	"github.com/onflow/crypto"
 	"github.com/onflow/crypto/hash"
@@ -63,109 +64,120 @@ func C16(run *mon.Run) {
 	if bytes.Equal(ph.ComputeHash([]byte("x")), crypto.NewExpandMsgXOFKMAC128("").ComputeHash([]byte("x"))) {
 		run.Violate("C16:expansions-equal", "PoP and signature expansions coincide", nil)
 	}
+	var wg sync.WaitGroup
+	sem := make(chan struct{}, 16)
 	for ki, key := range keys {
-		pk := key.sk.PublicKey()
-		enc := pk.Encode()
-		H, err := hashPoint(enc, ph, "pop")
-		if err != nil {
-			run.Violate("C16:hash-point", err.Error(), nil)
-			continue
-		}
-		E := ref.E1.Mul(H, key.k)
-		encE := ref.EncodeG1(E)
-		var pop crypto.Signature
-		if run.Guard("BLSGeneratePOP", key.name, func() { pop, err = crypto.BLSGeneratePOP(key.sk) }) {
-			continue
-		}
-		run.Eval(1)
-		if err != nil || !bytes.Equal(pop, encE) {
-			run.Violate("C16:pop-mismatch:"+key.name, fmt.Sprintf("BLSGeneratePOP = %x (err %v), reference [k]H_pop(enc(pk)) = %x", pop, err, encE), map[string]any{"k": key.k.String()})
-		}
-		full := ki < run.Pick(3, 10)
-		cs := g1Candidates(E, H, r, 20, full)
-		for _, c := range cs {
-			expect := bytes.Equal(c.b, encE)
-			var ok bool
-			rep := map[string]any{"k": key.k.String(), "candidate": mon.Hex(c.b), "kind": c.kind}
-			if run.Guard("BLSVerifyPOP", rep, func() { ok, err = crypto.BLSVerifyPOP(pk, c.b) }) {
-				continue
-			}
-			run.Eval(1)
-			run.Count("cand."+c.kind, 1)
+		wg.Add(1)
+		sem <- struct{}{}
+		go func(ki int, key namedKey) {
+			defer wg.Done()
+			defer func() { <-sem }()
+			r := run.Rand(fmt.Sprintf("key-%d", ki))
+			ph := popHasher()
+			pk := key.sk.PublicKey()
+			enc := pk.Encode()
+			H, err := hashPoint(enc, ph, "pop")
 			if err != nil {
-				run.Violate("C16:verifypop-error:"+c.kind, fmt.Sprintf("BLSVerifyPOP error %v", err), rep)
-			} else if ok != expect {
-				if expect {
-					run.Violate("C16:rejects-own-pop:"+key.name, "BLSVerifyPOP rejected the reference PoP", rep)
-				} else {
-					run.Violate("C16:accepts:"+c.kind, fmt.Sprintf("BLSVerifyPOP accepted a %s candidate (class %s)", c.kind, sigClass(c.b)), rep)
+				run.Violate("C16:hash-point", err.Error(), nil)
+				return
+			}
+			E := ref.E1.Mul(H, key.k)
+			encE := ref.EncodeG1(E)
+			var pop crypto.Signature
+			if run.Guard("BLSGeneratePOP", key.name, func() { pop, err = crypto.BLSGeneratePOP(key.sk) }) {
+				return
+			}
+			run.Eval(1)
+			if err != nil || !bytes.Equal(pop, encE) {
+				run.Violate("C16:pop-mismatch:"+key.name, fmt.Sprintf("BLSGeneratePOP = %x (err %v), reference [k]H_pop(enc(pk)) = %x", pop, err, encE), map[string]any{"k": key.k.String()})
+			}
+			full := ki < run.Pick(3, 10)
+			cs := g1Candidates(E, H, r, 20, full)
+			for _, c := range cs {
+				expect := bytes.Equal(c.b, encE)
+				var ok bool
+				rep := map[string]any{"k": key.k.String(), "candidate": mon.Hex(c.b), "kind": c.kind}
+				if run.Guard("BLSVerifyPOP", rep, func() { ok, err = crypto.BLSVerifyPOP(pk, c.b) }) {
+					continue
 				}
+				run.Eval(1)
+				run.Count("cand."+c.kind, 1)
+				if err != nil {
+					run.Violate("C16:verifypop-error:"+c.kind, fmt.Sprintf("BLSVerifyPOP error %v", err), rep)
+				} else if ok != expect {
+					if expect {
+						run.Violate("C16:rejects-own-pop:"+key.name, "BLSVerifyPOP rejected the reference PoP", rep)
+					} else {
+						run.Violate("C16:accepts:"+c.kind, fmt.Sprintf("BLSVerifyPOP accepted a %s candidate (class %s)", c.kind, sigClass(c.b)), rep)
+					}
+				}
+				run.Shape(key.name + "|" + c.kind)
 			}
-			run.Shape(key.name + "|" + c.kind)
-		}
-		// under another key and under identity keys
-		other := keys[(ki+1)%len(keys)]
-		if other.k.Cmp(key.k) != 0 {
-			ok, err := crypto.BLSVerifyPOP(other.sk.PublicKey(), encE)
-			run.Eval(1)
-			if ok || err != nil {
-				run.Violate("C16:pop-under-other-key", fmt.Sprintf("PoP of one key verified under another (%v,%v)", ok, err), map[string]any{"k": key.k.String(), "other": other.k.String()})
-			}
-			// a PoP-style signature by this key over the *other* key's bytes must not verify for the other key
-			forged, _ := key.sk.Sign(other.sk.PublicKey().Encode(), ph)
-			ok, err = crypto.BLSVerifyPOP(other.sk.PublicKey(), forged)
-			run.Eval(1)
-			if ok || err != nil {
-				run.Violate("C16:rogue-pop", "signature by key A over enc(pk_B) verified as PoP of B", nil)
-			}
-			run.Shape("other-key|" + key.name)
-		}
-		for _, ik := range ids {
-			for _, s := range [][]byte{encE, ref.EncodeG1(ref.E1.Infinity())} {
-				ok, err := crypto.BLSVerifyPOP(ik.pk, s)
+			// under another key and under identity keys
+			other := keys[(ki+1)%len(keys)]
+			if other.k.Cmp(key.k) != 0 {
+				ok, err := crypto.BLSVerifyPOP(other.sk.PublicKey(), encE)
 				run.Eval(1)
 				if ok || err != nil {
-					run.Violate("C16:identity-key-accepts", fmt.Sprintf("BLSVerifyPOP under %s = (%v,%v)", ik.name, ok, err), nil)
+					run.Violate("C16:pop-under-other-key", fmt.Sprintf("PoP of one key verified under another (%v,%v)", ok, err), map[string]any{"k": key.k.String(), "other": other.k.String()})
 				}
+				// a PoP-style signature by this key over the *other* key's bytes must not verify for the other key
+				forged, _ := key.sk.Sign(other.sk.PublicKey().Encode(), ph)
+				ok, err = crypto.BLSVerifyPOP(other.sk.PublicKey(), forged)
+				run.Eval(1)
+				if ok || err != nil {
+					run.Violate("C16:rogue-pop", "signature by key A over enc(pk_B) verified as PoP of B", nil)
+				}
+				run.Shape("other-key|" + key.name)
 			}
-			run.Shape("identity|" + ik.name)
-		}
-		// separation, both directions, per tag
-		nt := len(tags)
-		if run.Quick() && ki >= 4 {
-			nt = 12
-		}
-		for ti := 0; ti < nt; ti++ {
-			tag := tags[(ti+ki*7)%len(tags)]
-			if ki < 4 || !run.Quick() {
-				tag = tags[ti]
+			for _, ik := range ids {
+				for _, s := range [][]byte{encE, ref.EncodeG1(ref.E1.Infinity())} {
+					ok, err := crypto.BLSVerifyPOP(ik.pk, s)
+					run.Eval(1)
+					if ok || err != nil {
+						run.Violate("C16:identity-key-accepts", fmt.Sprintf("BLSVerifyPOP under %s = (%v,%v)", ik.name, ok, err), nil)
+					}
+				}
+				run.Shape("identity|" + ik.name)
 			}
-			th := crypto.NewExpandMsgXOFKMAC128(tag)
-			sig, err := key.sk.Sign(enc, th)
-			if err != nil {
-				run.Violate("C16:sign-error", err.Error(), tag)
-				continue
+			// separation, both directions, per tag
+			nt := len(tags)
+			if run.Quick() && ki >= 4 {
+				nt = 12
 			}
-			ok, err := crypto.BLSVerifyPOP(pk, sig)
-			run.Eval(1)
-			if ok || err != nil {
-				run.Violate("C16:signature-verifies-as-pop", fmt.Sprintf("signature of enc(pk) under tag %q verified as PoP (%v,%v)", tag, ok, err), map[string]any{"tag": tag, "k": key.k.String()})
+			for ti := 0; ti < nt; ti++ {
+				tag := tags[(ti+ki*7)%len(tags)]
+				if ki < 4 || !run.Quick() {
+					tag = tags[ti]
+				}
+				th := crypto.NewExpandMsgXOFKMAC128(tag)
+				sig, err := key.sk.Sign(enc, th)
+				if err != nil {
+					run.Violate("C16:sign-error", err.Error(), tag)
+					continue
+				}
+				ok, err := crypto.BLSVerifyPOP(pk, sig)
+				run.Eval(1)
+				if ok || err != nil {
+					run.Violate("C16:signature-verifies-as-pop", fmt.Sprintf("signature of enc(pk) under tag %q verified as PoP (%v,%v)", tag, ok, err), map[string]any{"tag": tag, "k": key.k.String()})
+				}
+				ok, err = pk.Verify(encE, enc, th)
+				run.Eval(1)
+				if ok || err != nil {
+					run.Violate("C16:pop-verifies-as-signature", fmt.Sprintf("PoP verified as signature under tag %q (%v,%v)", tag, ok, err), map[string]any{"tag": tag, "k": key.k.String()})
+				}
+				if bytes.Equal(th.ComputeHash(enc), ph.ComputeHash(enc)) {
+					run.Violate("C16:expansion-collision", fmt.Sprintf("tag %q expands like the PoP suite", tag), tag)
+				}
+				run.Shape(fmt.Sprintf("sep|%d", (ti+ki*7)%len(tags)))
+				run.Count("tags", 1)
 			}
-			ok, err = pk.Verify(encE, enc, th)
-			run.Eval(1)
-			if ok || err != nil {
-				run.Violate("C16:pop-verifies-as-signature", fmt.Sprintf("PoP verified as signature under tag %q (%v,%v)", tag, ok, err), map[string]any{"tag": tag, "k": key.k.String()})
+			if ki < 2 {
+				run.Sample(map[string]any{"key": key.name, "pop": mon.Hex(encE), "tags_tried": nt})
 			}
-			if bytes.Equal(th.ComputeHash(enc), ph.ComputeHash(enc)) {
-				run.Violate("C16:expansion-collision", fmt.Sprintf("tag %q expands like the PoP suite", tag), tag)
-			}
-			run.Shape(fmt.Sprintf("sep|%d", (ti+ki*7)%len(tags)))
-			run.Count("tags", 1)
-		}
-		if ki < 2 {
-			run.Sample(map[string]any{"key": key.name, "pop": mon.Hex(encE), "tags_tried": nt})
-		}
+		}(ki, key)
 	}
+	wg.Wait()
 	// non-BLS keys
 	for _, alg := range []crypto.SigningAlgorithm{crypto.ECDSAP256, crypto.ECDSASecp256k1} {
 		sk, err := crypto.GeneratePrivateKey(alg, mon.RandBytes(r, 32))
